@@ -407,11 +407,14 @@ HM(H, k, hd) ==
     LET p == IF k = 1 THEN [sdt |-> N(H.dt), sfac |-> One]
              ELSE HM(H, k - 1, hd)
     IN HM_Step(H, k, hd, p.sdt, p.sfac)
-HMechSame(H) ==
-    \A k \in 1 .. Len(H.asks) :
-        LET m == HM(H, k, {})
-        IN /\ SameV(H.asks[k].res, m.res) /\ SameV(H.asks[k].kept, m.kept)
-           /\ SameV(H.asks[k].step, m.step)
+RECURSIVE HMechFrom(_, _, _, _)
+HMechFrom(H, k, sdt, sfac) ==
+    IF k > Len(H.asks) THEN TRUE
+    ELSE LET m == HM_Step(H, k, {}, sdt, sfac)
+         IN /\ SameV(H.asks[k].res, m.res) /\ SameV(H.asks[k].kept, m.kept)
+            /\ SameV(H.asks[k].step, m.step)
+            /\ HMechFrom(H, k + 1, m.sdt, m.sfac)
+HMechSame(H) == HMechFrom(H, 1, N(H.dt), One)
 
 HVerdict(H) ==
     LET bad == HBad(H)
